@@ -76,6 +76,8 @@ def run(tier, seed):
            conv(meter, foot, "OTHER:KeyError", None),                                 # C07 escaped (and C08 ok then fail is CNF only)
            {"e": "arith", "op": "add", "l": Q(meter, 0, 1), "r": Q(sec, 0, 1), "n": None, "out": "ok", "res": Q(meter, 0, 1)},         # C03
            {"e": "arith", "op": "mul", "l": Q(meter, 0, 1, "Decimal"), "r": Q(foot, 0, 1), "n": None, "out": "ok", "res": Q(U("0|foot:1,meter:1", 0, [["foot", 1], ["meter", 1]], [0, 2, 0]), 5000, 1)},  # C03 decimal lost, C06 value (5e-3 off)
+           {"e": "arith", "op": "add", "l": Q(meter, 0, 1), "r": Q(foot, 6907755, 1), "n": None, "out": "ok", "res": Q(meter, 6908755, 1)},   # 1 m + 1000 ft = 1001 m
+           {"e": "arith", "op": "sub", "l": Q(foot, 6907755, 1), "r": Q(meter, 0, -1), "n": None, "out": "ok", "res": Q(foot, 0, 1)},       # 1000 ft - (-1 m) = 1 ft
            {"e": "cmp", "op": "lt", "l": Q(meter, 0, 1), "r": Q(foot, 0, 1), "out": "T"},       # C12: 1 m < 1 ft
            {"e": "cmp", "op": "eq", "l": Q(foot, 0, 1), "r": Q(meter, 0, 1), "out": "F", "rev": "T", "hq": "F"},     # == the other way round
            {"e": "cmp", "op": "lt", "l": Q(foot, 0, 1), "r": Q(meter, 0, 1), "out": "T", "rev": "T", "hq": "F"},     # < both ways
@@ -92,7 +94,7 @@ def run(tier, seed):
         got[label] = sorted({b["clause"] for b in r.exports.get("BAD", [])}) if r.exports.get("DONE") and not r.errors else ["TLC failed: %s" % r.errors[:1]]
     want = {"C04:conv:value", "C08:conv:repeat-differs", "C04:conv:unit-not-the-requested-one", "C08:conv:failed-then-succeeded-without-a-declaration",
             "C03:conv:incommensurable-not-rejected", "C07:conv:escaped:OTHER:KeyError", "C03:add:incommensurable-not-rejected", "C03:mul:decimal-lost",
-            "C06:mul:physical-value", "C12:cmp:lt:disagrees-with-physical-order", "C12:cmp:eq:other-way-round-disagrees-with-physical-order",
+            "C06:mul:physical-value", "C06:add:sum-outside-the-range-of-its-operands", "C06:sub:sum-outside-the-range-of-its-operands", "C12:cmp:lt:disagrees-with-physical-order", "C12:cmp:eq:other-way-round-disagrees-with-physical-order",
             "C12:cmp:lt:other-way-round-disagrees-with-physical-order", "C12:cmp:eq:equal-in-one-unit-but-hashes-differ",
             "C03:cmp:eq:incommensurable-compared-the-other-way-round"}
     expect("Ledger accepts the consistent history", got["good"] == [], str(got["good"])[:120])
